@@ -19,6 +19,7 @@ import (
 	"fmt"
 	"os"
 	"slices"
+	"strings"
 
 	"mvdan.cc/garble/internal/ctrlflow"
 	"mvdan.cc/garble/internal/literals"
@@ -291,6 +292,50 @@ func verifHandle(r *verifReq) (resp map[string]any) {
 		} else {
 			resp["funcs"] = funcs
 		}
+	case "linkvars":
+		// S = Go source of one package (no imports), S2 = its import path, Args[0] = the -ldflags value
+		pkgv, err2 := verifCheckSource(r.S, r.S2)
+		if err2 != nil {
+			resp["err"] = err2.Error()
+			break
+		}
+		sharedCache = &sharedCacheType{ListedPackages: newListedPackages()}
+		sharedCache.ForwardBuildFlags = []string{"-ldflags=" + r.Args[0]}
+		m, err2 := computeLinkerVariableStrings(pkgv)
+		if err2 != nil {
+			resp["err"] = err2.Error()
+			break
+		}
+		vars := map[string]string{}
+		for v, val := range m {
+			vars[v.Name()] = val
+		}
+		resp["vars"] = vars
+	case "translink":
+		// Args = the linker's flags and arguments (without -importcfg); runs the real transformLink on an empty importcfg
+		verifSetCfg(r)
+		cur := verifSetPkgs(r)
+		tmp, err := os.MkdirTemp("", "verif-link")
+		if err != nil {
+			resp["err"] = err.Error()
+			break
+		}
+		defer os.RemoveAll(tmp)
+		sharedTempDir = tmp
+		cfg := filepath.Join(tmp, "importcfg.in")
+		os.WriteFile(cfg, []byte("# import config\n"), 0o666)
+		tf := &transformer{curPkg: cur}
+		out, err := tf.transformLink(append([]string{"-importcfg=" + cfg}, r.Args...))
+		if err != nil {
+			resp["err"] = err.Error()
+			break
+		}
+		for i, a := range out {
+			if strings.HasPrefix(a, "-importcfg=") {
+				out[i] = "-importcfg=CFG"
+			}
+		}
+		resp["flags"] = out
 	case "reflclosure":
 		// S = Go source (package p, no imports), Name = root type, Seed as usual
 		verifSetCfg(r)
